@@ -517,7 +517,7 @@ def _py(hist):
 def check(ctx):
     agg = Agg()
     depth = ctx.pick(3, 4)
-    pool = ctx.pick(4, 5)
+    pool = ctx.pick(4, 4)
     drv = Driver(pool=pool)
     explorer.bfs(drv, depth, agg)
     agg.notes["bound"] = f"depth<={depth} events from each of 4 seed worlds, pool<={pool} objects"
